@@ -39,6 +39,26 @@ def res_seq(rng, cap=None, n=None, prange=None, ids=None):
     return ops
 
 
+def res_split_carry(rng):
+    """a large payload is split (sizes where a grown slice would have spare room), one half is refused and handed back into
+    the next period's reservoir (empty or not), then more events arrive than the handed-back half held"""
+    cap = rng.choice([34, 42, 50, 67, 100, 130])
+    nid = itertools.count(1)
+    ops = ["res new 0 %d" % cap]
+    for _ in range(rng.randint(cap // 2, 2 * cap)):
+        ops.append("res add 0 %d %d" % (rng.randrange(1000000), next(nid)))
+    ops.append("res split 0 4 5")
+    ops.append("res new 6 %d" % cap)
+    for _ in range(rng.choice([0, 0, 0, 1, 3])):
+        ops.append("res add 6 %d %d" % (rng.randrange(1000000), next(nid)))
+    ops.append("res mergefailed 6 %d" % rng.choice([4, 5]))
+    if rng.random() < 0.3:
+        ops.append("res mergefailed 6 %d" % rng.choice([4, 5]))
+    for _ in range(rng.randint(cap // 2, cap + 10)):
+        ops.append("res add 6 %d %d" % (rng.randrange(1000000), next(nid)))
+    return ops
+
+
 def heap_seq(rng, eng, cap=None, n=None, prange=None):
     cap = rng.choice([1, 1, 2, 3, 5, 10, 20]) if cap is None else cap
     n = rng.randint(0, 3 * cap + 5) if n is None else n
